@@ -450,6 +450,8 @@ def c12_jobs(tier, seed):
         for fam, n in C12_FAMS:
             # the block-recursive PLE is only entered in the small-cache configurations at these sizes: keep its big shapes there
             ex = 'nosweep' if (fam == 'ple' and cfg.startswith(('small', 'c128'))) or not q else 'nobig,nosweep'
+            if not q and fam in ('solve', 'kernel') and not cfg.startswith('small'):
+                ex = 'nobig,nosweep'   # their block-recursive shapes only recurse in the small-cache configurations (and cost TLC the most)
             if q and fam == 'mul' and cfg.endswith('_omp'):
                 ex = 'nobig'      # the Strassen shape sweep exercises the multi-core front ends in the OpenMP configurations
             jobs.append(TraceJob(cfg, fam, shards=(2 if fam == 'ple' and cfg.startswith(('small', 'c128')) else 1) if q else 2, args=['--cases', n if q else n * 4, '--extra', ex],
